@@ -613,7 +613,7 @@ theorem goEquals_of_isEmpty : ∀ (fuel : Nat) (ss : Schemas) (t : Ty) (a b : Go
     unfold goEquals
     cases hcl : classify ss t <;> simp only [hcl] at ha hb ⊢
     case unsup => cases ha
-    case any => cases a <;> simp_all [isEmpty] <;> cases b <;> simp_all [isEmpty, deepEqual]
+    case any => cases a <;> simp_all [isEmpty] <;> cases b <;> simp_all [deepEqual]
     case leaf kind dt nullable =>
       cases nullable
       · simp only [ptrOk, ptrEq, Bool.false_eq_true, if_false] at *
@@ -621,21 +621,21 @@ theorem goEquals_of_isEmpty : ∀ (fuel : Nat) (ss : Schemas) (t : Ty) (a b : Go
         repeat' split at ha
         all_goals (first | (cases ha; done) | skip)
         all_goals (cases b <;> simp_all [leafEq, isEmpty])
-      · cases a <;> simp_all [isEmpty, ptrOk] <;> cases b <;> simp_all [isEmpty, ptrEq]
+      · cases a <;> simp_all [isEmpty, ptrOk] <;> cases b <;> simp_all [ptrEq]
     case arr e =>
-      cases a <;> simp_all [isEmpty] <;> cases b <;> simp_all [isEmpty, elems, eqList]
+      cases a <;> simp_all [isEmpty] <;> cases b <;> simp_all [elems, eqList]
     case map e =>
-      cases a <;> simp_all [isEmpty] <;> cases b <;> simp_all [isEmpty, entries, eqEntries]
+      cases a <;> simp_all [isEmpty] <;> cases b <;> simp_all [entries, eqEntries]
     case struct fields nullable =>
       cases nullable
       · simp only [ptrOk, Bool.false_eq_true, if_false] at ha
         cases a <;> simp_all [isEmpty]
-      · cases a <;> simp_all [isEmpty, ptrOk] <;> cases b <;> simp_all [isEmpty, ptrEq]
+      · cases a <;> simp_all [isEmpty, ptrOk] <;> cases b <;> simp_all [ptrEq]
     case union fields nullable =>
       cases nullable
       · simp only [ptrOk, Bool.false_eq_true, if_false] at ha
         cases a <;> simp_all [isEmpty]
-      · cases a <;> simp_all [isEmpty, ptrOk] <;> cases b <;> simp_all [isEmpty, ptrEq]
+      · cases a <;> simp_all [isEmpty, ptrOk] <;> cases b <;> simp_all [ptrEq]
     case alias t' => exact goEquals_of_isEmpty fuel ss t' a b ha hb ea eb
 
 theorem goEquals_of_enc : ∀ (fuel : Nat) (ss : Schemas) (t : Ty) (a b : GoVal),
